@@ -87,6 +87,46 @@ theorem C10_append_dependence (s : St) (lhs x : Nat) (m : Int) (hr : s.isRecordi
         s.appendDependence lhs x m = .error .wrong_gradient) :=
   append_dependence s lhs x m hr
 
+/-- ARRAY FORMS (`y.add_derivative_dependence(x, dy_dx, n, multiplier_stride)` of Active, ActiveReference and
+    ActiveConstReference).  For EVERY term list — any length, repeated right-hand sides, zero multipliers, whatever the
+    multiplier stride — the relation acts in the tangent-linear sweep exactly as the linear statement it describes,
+    `d[lhs] = Σⱼ mⱼ·d[xⱼ]` (the zero multipliers, which push no operation, contribute nothing) … -/
+theorem C10_dependence_array_is_statement (lhs : Nat) (ts : List (Nat × Int)) (g : Vec Int) :
+    fwdStep (addDepN lhs ts) g = g.set lhs (termSum ts g) :=
+  dependenceN_is_statement lhs ts g
+
+/-- … the array form of `append_derivative_dependence` extends the statement by `Σⱼ mⱼ·d[xⱼ]` … -/
+theorem C10_append_array_is_extension (st : Stmt Int) (ts : List (Nat × Int)) (g : Vec Int) :
+    fwdStep (appendDepN st ts) g = g.set st.lhs (rhsVal st.ops g + termSum ts g) :=
+  appendN_is_extension st ts g
+
+/-- … on a recording stack the array form appends exactly that one statement; the array form of append replaces the last
+    statement by its extension when called on the variable of the last statement and raises `wrong_gradient` otherwise,
+    having pushed nothing; and while recording is paused neither form records anything. -/
+theorem C10_dependence_array_records (s : St) (lhs : Nat) (ts : List (Nat × Int)) :
+    (s.isRecording = true → s.pend = [] →
+        (s.addDependenceN lhs ts).tape = s.tape ++ [addDepN lhs ts] ∧ (s.addDependenceN lhs ts).pend = []) ∧
+    (s.isRecording = true → ∀ last, s.tape.getLast? = some last → last.lhs = lhs →
+        s.appendDependenceN lhs ts = .ok { s with tape := s.tape.dropLast ++ [appendDepN last ts] }) ∧
+    (s.isRecording = true → (∀ last, s.tape.getLast? = some last → last.lhs ≠ lhs) →
+        s.appendDependenceN lhs ts = .error .wrong_gradient) ∧
+    (s.isRecording = false → s.addDependenceN lhs ts = s ∧ s.appendDependenceN lhs ts = .ok s) :=
+  ⟨fun hr hp => add_dependenceN_records s lhs ts hr hp,
+   fun hr => (append_dependenceN s lhs ts hr).1,
+   fun hr => (append_dependenceN s lhs ts hr).2,
+   fun hr => dependenceN_paused s lhs ts hr⟩
+
+/-- The array form is the single-term form repeated: the first term added, the others appended one by one. -/
+theorem C10_dependence_array_unfolds (lhs x : Nat) (m : Int) (ts : List (Nat × Int)) (st : Stmt Int) :
+    addDepN lhs ((x, m) :: ts) = appendDepN (addDep lhs x m) ts ∧
+    appendDepN st ((x, m) :: ts) = appendDepN (appendDep st x m) ts ∧
+    addDepN lhs [] = ⟨lhs, []⟩ ∧ appendDepN st [] = st :=
+  ⟨addDepN_cons lhs x m ts, appendDepN_cons st x m ts, rfl, by simp [appendDepN, depOps]⟩
+
+/-- a concrete relation: `d[7] = 2·d[1] + 0·d[2] − 3·d[1]` pushes two operations and evaluates to `−g[1]` -/
+example : (addDepN 7 [(1, 2), (2, 0), (1, -3)]).ops = [(2, 1), (-3, 1)] ∧
+    termSum [(1, 2), (2, 0), (1, -3)] [0, 5, 9] = -5 := by decide
+
 /-! Non-vacuity of `C10_pause_noop`: a paused pausable stack with one live variable. -/
 example : ∃ s : St, s.cfg.pausable = true ∧ s.recording = false ∧
     (s.assign 0 ⟨0, 2⟩ (.mul (.v 0) (.c 3))).isSome = true :=
